@@ -157,13 +157,38 @@ def run(prog: Program, rep: Report, tier: str) -> None:
     cf = prog.role_func("time", "cf_units")
     rep.check("R13.3", cf.qual, "cf_units uses unit_table[unit] and the reference time", "self.unit_table[unit]" in unparse(cf.node) and "self.reference_time" in unparse(cf.node), what_bad="units string must be '<unit_table[unit]> since <reference_time>'", what_ok="ok", loc=cf.loc())
     # ISO pattern
-    npf = prog.func("timekeeper.normalize_period")
+    from ..program import inline_helpers
+
+    npf = inline_helpers(prog, prog.func("timekeeper.normalize_period"))
     pat = None
+    match_kind = None
+
+    def str_of(e):
+        """string value of an expression: literal, local single definition or module-level constant"""
+        if isinstance(e, ast.Constant) and isinstance(e.value, str):
+            return e.value
+        if isinstance(e, ast.Name):
+            from ..program import single_defs
+
+            d = single_defs(npf.node).get(e.id)
+            if d is not None:
+                return str_of(d)
+            mc = npf.module.constants.get(e.id)
+            if mc is not None:
+                mc = mc if isinstance(mc, ast.AST) else ast.parse(mc, mode="eval").body
+                return str_of(mc)
+        if isinstance(e, ast.Call) and unparse(e.func) in ("re.compile",) and e.args:
+            return str_of(e.args[0])
+        return None
+
     for node in walk_no_nested(npf.node):
-        if isinstance(node, ast.Assign) and isinstance(node.value, ast.Constant) and isinstance(node.value.value, str) and "PT" in node.value.value:
-            pat = node.value.value
+        if isinstance(node, ast.Call) and isinstance(node.func, ast.Attribute) and node.func.attr in ("match", "fullmatch", "search"):
+            recv = node.func.value
+            cand = str_of(node.args[0]) if unparse(recv) == "re" and node.args else str_of(recv)
+            if cand is not None:
+                pat, match_kind = cand, node.func.attr
     if pat is None:
-        raise AnalysisError("normalize_period: ISO pattern literal not found")
+        raise AnalysisError("normalize_period: ISO pattern (argument of re.match / compiled pattern) not found")
     import re._parser as rp  # type: ignore
 
     parsed = rp.parse(pat)
@@ -182,6 +207,10 @@ def run(prog: Program, rep: Report, tier: str) -> None:
                     items = list(sav[3])
                     if len(items) == 2 and str(items[0][0]) == "MAX_REPEAT" and str(items[1][0]) == "LITERAL":
                         letters.append((chr(items[1][1]), lo, hi))
+    if match_kind == "fullmatch":
+        anchored = [True, True]
+    elif match_kind == "match":
+        anchored[0] = True
     rep.check("R13.3", npf.qual, f"ISO pattern {pat!r}", [l for l, _, _ in letters] == ["H", "M", "S"] and all(lo == 0 and hi == 1 for _, lo, hi in letters) and all(anchored), what_bad=f"pattern must be anchored and accept optional groups <digits>H, <digits>M, <digits>S in this order; parsed groups {letters}, anchored {anchored}", what_ok="PT[xH][yM][zS], anchored", loc=npf.loc())
     src = unparse(npf.node)
     lowered = any(isinstance(n, ast.Call) and isinstance(n.func, ast.Attribute) and n.func.attr == "lower" for n in walk_no_nested(npf.node))
@@ -268,7 +297,14 @@ def _dur_eval(e: ast.expr, env: dict):
         fn = unparse(e.func)
         if fn == "isinstance" and len(e.args) == 2:
             v = _dur_eval(e.args[0], env)
-            ts = e.args[1].elts if isinstance(e.args[1], ast.Tuple) else [e.args[1]]
+            def flat(t):
+                if isinstance(t, ast.Tuple):
+                    return [y for x in t.elts for y in flat(x)]
+                if isinstance(t, ast.BinOp) and isinstance(t.op, ast.BitOr):
+                    return flat(t.left) + flat(t.right)
+                return [t]
+
+            ts = flat(e.args[1])
             return ("bool", any(unparse(t) in _type_names(v) for t in ts))
         if fn in ("np.timedelta64", "numpy.timedelta64", "timedelta64") and e.args and not e.keywords:
             v = _dur_eval(e.args[0], env)
@@ -390,7 +426,9 @@ def _dur_exec(stmts, env: dict) -> None:
 
 def period_spellings(prog: Program, rep: Report) -> None:
     rule = "R13.5"
-    npf = prog.func("timekeeper.normalize_period")
+    from ..program import inline_helpers
+
+    npf = inline_helpers(prog, prog.func("timekeeper.normalize_period"))
     param = npf.params[0]
     n = NF.atom("n")
     td = NF.atom("td.days") * 86400 + NF.atom("td.seconds")
